@@ -586,17 +586,26 @@ def gen_request(rng):
     if rng.random() < 0.2:
         vb = {'verbose': rng.choice([True, False])}
     if kind == 'xy':
+        big = [999999, 1000000, -1000000, 1234567, 10000000, 16777215, -16777215]     # the firmware takes 24-bit values
         dx = pick_int(rng, -100000, 100000, [0, 0, 1, -1])
         dy = pick_int(rng, -100000, 100000, [0, 0, 1, -1])
         t = pick_int(rng, 1, 100000, [1, 2, 750])
+        if rng.random() < 0.12:
+            dx = rng.choice(big)
+        if rng.random() < 0.12:
+            dy = rng.choice(big)
+        if rng.random() < 0.08:
+            t = rng.choice([1000000, 16777215, 2500000])
         if rng.random() < 0.15:
             return [('legacy', 'doXYMove', [], dict(delta_x=dx, delta_y=dy, duration=t, **vb)),
                     ('ebb3', 'xy_move', [], dict(delta_x=dx, delta_y=dy, duration=t))]
         return [('legacy', 'doXYMove', [dx, dy, t], vb), ('ebb3', 'xy_move', [dx, dy, t], {})]
     if kind == 'ab':
-        return [('legacy', 'doABMove', [pick_int(rng, -100000, 100000, [0, 1, -1]),
-                                        pick_int(rng, -100000, 100000, [0, 1, -1]),
-                                        pick_int(rng, 1, 100000, [1, 750])], vb)]
+        return [('legacy', 'doABMove', [pick_int(rng, -100000, 100000, [0, 1, -1]) if rng.random() < 0.85 else
+                                        rng.choice([1000000, -1000000, 16777215]),
+                                        pick_int(rng, -100000, 100000, [0, 1, -1]) if rng.random() < 0.85 else
+                                        rng.choice([1000000, -2000000, 8388608]),
+                                        pick_int(rng, 1, 100000, [1, 750]) if rng.random() < 0.9 else 1000000], vb)]
     if kind == 'pause':
         n = rng.choice(PAUSE_EDGES) if rng.random() < 0.6 else rng.randint(-3, 6000)
         if rng.random() < 0.006:
@@ -836,7 +845,8 @@ def gen(rng, idx):
 # sweep: every helper x a grid of boundary arguments
 
 GRID = {
-    'xy': [(dx, dy, t) for dx in (0, 1, -7, 500) for dy in (0, 2, -9) for t in (1, 750, 30000)],
+    'xy': [(dx, dy, t) for dx in (0, 1, -7, 500, 1000000, -16777215) for dy in (0, 2, -9, 2000000)
+           for t in (1, 750, 30000, 1000000)],
     'pause': [(n,) for n in PAUSE_EDGES + [3, 700, 3000, 7777, 1000000]],
     'abs': [(r, p1, p2) for r in (1000,) for p1 in ('absent', None, 0, 5, -5) for p2 in ('absent', None, 0, 7, -7)],
     'pen': [(d, p) for d in (0, 1, 400) for p in ('absent', None, 0, 1, 3)],
